@@ -703,6 +703,14 @@ where
         unsafe { R::clear_components(&mut self.components, length, self.identifier.iter()) };
     }
 
+    /// Forget every row without dropping its components.
+    ///
+    /// This leaks the components. It is only meant for recovering from a panic in user code that
+    /// left the rows in an unknown state.
+    pub(crate) fn forget_rows(&mut self) {
+        self.length = 0;
+    }
+
     /// Decrease the allocated capacity for the component columns and entity identifier column.
     ///
     /// This may not decrease to the most optimal capacity, as it is dependent on the allocator.
